@@ -144,4 +144,45 @@ def gen_join_all() -> str:
     return ModuleTranslator(REPO, join_all_spec()).run("Gen.JoinAll")
 
 
-GENERATORS = {"JoinAll": gen_join_all, "OptionsAcc": gen_options, "RunLoop": gen_run_loop, "Tracker": gen_tracker}
+WORKER_OPAQUE_STR = {"traceback.format_exc": Opaque("format_exc", returns="str")}
+
+
+def thread_worker_spec() -> ModuleSpec:
+    return ModuleSpec(
+        path="mloda/core/runtime/worker/thread_worker.py",
+        cls=None,
+        functions=[FnSpec("thread_worker", {"command": "obj", "cfw_register": "obj", "cfw": "obj", "from_cfw": "obj"}, lean_name="threadWorker")],
+        opaque={
+            "command.execute": Opaque("execute", may_raise="executeRaises"),
+            "cfw_register.set_error": Opaque("set_error"),
+            **WORKER_OPAQUE_STR,
+        },
+        attr_assign_events={"command.step_is_done": "step_is_done"},
+    )
+
+
+def sync_execute_spec() -> ModuleSpec:
+    return ModuleSpec(
+        path="mloda/core/runtime/compute_framework_executor.py",
+        cls="ComputeFrameworkExecutor",
+        functions=[FnSpec("sync_execute_step", {"step": "obj"}, lean_name="syncExecuteStep")],
+        opaque={
+            "self.prepare_execute_step": Opaque("prepare_execute_step", returns="obj"),
+            "self.prepare_tfs_and_joinstep": Opaque("prepare_tfs_and_joinstep", returns="obj", may_raise="prepareFromRaises"),
+            "step.execute": Opaque("execute", may_raise="executeRaises"),
+            "self.cfw_register.set_error": Opaque("set_error"),
+            **WORKER_OPAQUE_STR,
+        },
+        attr_assign_events={"step.step_is_done": "step_is_done"},
+        expr_map={"ParallelizationMode.SYNC": ("()", "obj"), "self.cfw_register": ("()", "obj"), "self.cfw_collection[cfw_uuid]": ("()", "obj")},
+        ignore_calls=["logging.error"],
+    )
+
+
+def gen_workers() -> str:
+    a = ModuleTranslator(REPO, thread_worker_spec()).run("Gen.ThreadWorker")
+    b = ModuleTranslator(REPO, sync_execute_spec()).run("Gen.SyncExecute")
+    return a + "\n" + b.replace("import MlodaVerif.Model.PyRt\n", "")
+
+
+GENERATORS = {"Workers": gen_workers, "JoinAll": gen_join_all, "OptionsAcc": gen_options, "RunLoop": gen_run_loop, "Tracker": gen_tracker}
